@@ -57,7 +57,10 @@ class MiniSocks(Peer):
             if self.outcome == 'ok':
                 self.conn.send(b'\x05\x00\x00\x01\x00\x00\x00\x00\x00\x00')
             else:
-                self.conn.send(b'\x05\x05\x00\x01\x00\x00\x00\x00\x00\x00')
+                # any failure code, also ones without a meaning in RFC 1928
+                code = self.run.ch.pick([5, 1, 4, 8, 9, 0x5a, 0xff], 'failcode')
+                self.run.fail_codes.append(code)
+                self.conn.send(bytes([5, code]) + b'\x00\x01\x00\x00\x00\x00\x00\x00')
                 self.conn.close()
 
 
@@ -401,6 +404,7 @@ class C18Run(object):
             outcomes[port] = ['ok', 'refuse', 'noroute', 'timeout', 'socksfail', 'malformed', 'drop'][
                 ch.weighted([6, 8, 2, 2, 4, 1, 1], 'outcome%d' % port)]
         self.outcomes = outcomes
+        self.fail_codes = []
         sim.log('fallback', sorted(outcomes.items()))
 
         def policy(connector):
@@ -445,9 +449,10 @@ class C18Run(object):
         if o1 == 'socksfail':
             sim.probe('fallback-socks-failure')
             if tried != [9050]:
-                sim.fail('C18.fallback-moved-on-after-socks-error', 'first port answered with a SOCKS failure but ports tried are %r' % (tried,))
+                sim.fail('C18.fallback-moved-on-after-socks-error', 'first port answered with a SOCKS failure (code %r) but ports tried are %r' % (
+                    self.fail_codes, tried,))
             if kind != 'err' or not isinstance(val.value, SocksError):
-                sim.fail('C18.fallback-wrong-error', 'SOCKS failure on 9050 but result is %r' % (val,))
+                sim.fail('C18.fallback-wrong-error', 'SOCKS failure (code %r) on 9050 but result is %r' % (self.fail_codes, val,))
             return
         if o1 == 'timeout':
             sim.probe('fallback-timeout')
